@@ -21,9 +21,10 @@ DECIDED = [
     'R3: type deduction ladder evaluated for every Python type PyYAML produces: dict->ConfigDict, list->ConfigList, tuple->ConfigTuple, everything else (incl. str/bytes) ->ConfigScalar.',
     'R4: scalar native-type table: every non-identity wrapper (bool->configbool, NoneType->ConfigNone) is special-cased in _get_value and _get_native_value and defines get(); other scalars convert with _dyn_base(self).',
     'R5: plain containers evaluate every child exactly once, in child-map order, through the context (single comprehension over named_children without filter/sort/slice).',
+    'R7: the {{...}} -> :hex rewriting shifts both bounds of every block by the accumulated offset, splices data[:beg] + repl + data[end:] and accumulates len(repl) - (end - beg); encoder / decoder are an inverse pair.',
     'R6: no key class bypasses the child map: ConfigDict item set/delete keep both stores paired (C17.R1).',
 ]
-UNDECIDED = ['{{...}} -> :hex metadata text rewriting (offset arithmetic over runtime text);', 'equality of scalar values; non-core YAML types; YAML merge keys (<<) under tagged mappings.']
+UNDECIDED = ['tokenisation of the {{...}} block end (_get_metadata_end);', 'equality of scalar values; non-core YAML types; YAML merge keys (<<) under tagged mappings.']
 TRUSTED = ['shape of yaml/constructor.py BaseConstructor.construct_object of the installed PyYAML (re-verified structurally on each run)']
 
 
@@ -305,7 +306,72 @@ def plain_container_eval(repo, run, rule):
     run.ok(rule, nc, 'named_children yields self._children.items() in order (duplicates allowed by default)')
 
 
+def _inline_locals(fi, e, loop):
+    """substitute single-assignment locals of the loop body into expression e (textually, via ast)"""
+    defs = {}
+    for st in loop.body:
+        if isinstance(st, ast.Assign) and len(st.targets) == 1 and isinstance(st.targets[0], ast.Name):
+            defs.setdefault(st.targets[0].id, []).append(st.value)
+    single = {k: v[0] for k, v in defs.items() if len(v) == 1}
+
+    class S(ast.NodeTransformer):
+        def visit_Name(self, n):
+            if n.id in single and n.id not in ('data',):
+                return self.visit(__import__('copy').deepcopy(single[n.id]))
+            return n
+    return norm(S().visit(__import__('copy').deepcopy(e)))
+
+
+def r7(repo, run):
+    """{{..}} -> :hex rewriting keeps its offsets consistent when a document holds several metadata blocks"""
+    fi = repo.func('yaml._encode_all_metadata')
+    loops = [st for st in fi.node.body if isinstance(st, ast.For)]
+    if len(loops) != 1 or not isinstance(loops[0].target, ast.Tuple) or len(loops[0].target.elts) != 2:
+        raise AnalysisError('_encode_all_metadata: rewrite loop not recognised')
+    lp = loops[0]
+    b, e_ = [x.id for x in lp.target.elts]
+    offs = [st for st in lp.body if isinstance(st, ast.AugAssign) and isinstance(st.op, ast.Add) and isinstance(st.target, ast.Name) and st.target.id not in (b, e_)]
+    if len(offs) != 1:
+        run.violation('C01.R7', fi, 'offset bookkeeping', 'the rewrite loop does not accumulate the length difference of each replacement: the second and later metadata blocks of a document are cut at stale positions', node=lp)
+        return
+    off = offs[0].target.id
+    shifted = {st.target.id for st in lp.body if isinstance(st, ast.AugAssign) and isinstance(st.op, ast.Add) and norm(st.value) == off and st.lineno < offs[0].lineno}
+    probs = []
+    if shifted != {b, e_}:
+        probs.append('only %s of the block bounds (%s, %s) are shifted by the accumulated offset' % (sorted(shifted) or 'none', b, e_))
+    splice = [st for st in lp.body if isinstance(st, ast.Assign) and norm(st.targets[0]) == 'data']
+    if len(splice) != 1:
+        raise AnalysisError('_encode_all_metadata: splice not recognised')
+    sp = _inline_locals(fi, splice[0].value, lp)
+    import re as _re
+    m = _re.match(r"^data\[:%s\] \+ (.+) \+ data\[%s:\]$" % (b, e_), sp)
+    if not m:
+        probs.append('the block is not replaced by data[:%s] + <replacement> + data[%s:] (%s)' % (b, e_, sp[:80]))
+    else:
+        repl = m.group(1)
+        inc = _inline_locals(fi, offs[0].value, lp)
+        want = {norm(ast.parse(t, mode='eval').body) for t in ('len(%s) - (%s - %s)' % (repl, e_, b), 'len(%s) - %s + %s' % (repl, e_, b))}
+        if inc not in want:
+            probs.append('offset grows by %s, expected len(replacement) - (end - begin) = %s' % (inc, sorted(want)[0]))
+    init = [st for st in fi.node.body if isinstance(st, ast.Assign) and norm(st.targets[0]) == off and st.lineno < lp.lineno]
+    if not init or norm(init[0].value) != '0':
+        probs.append('offset does not start at 0')
+    if probs:
+        run.violation('C01.R7', fi, 'metadata rewrite offsets', '; '.join(probs) + ' - documents with two or more {{...}} blocks are rewritten at wrong positions', node=lp)
+    else:
+        run.ok('C01.R7', (fi.file, lp.lineno, fi.qualname), 'beg += offset; end += offset; data = data[:beg] + repl + data[end:]; offset += len(repl) - (end - beg)', 'positions stay aligned across several metadata blocks')
+    enc, dec = repo.func('yaml._encode_metadata'), repo.func('yaml._decode_metadata')
+    if norm(enc.node.body[-1]) != 'return pickle.dumps(metadata).hex()' or 'pickle.loads(bytes.fromhex(encoded))' not in norm(dec.node):
+        run.violation('C01.R7', enc, norm(enc.node.body[-1]), 'metadata encoder and decoder are not the inverse pair pickle.dumps(..).hex() / pickle.loads(bytes.fromhex(..))')
+    else:
+        run.ok('C01.R7', enc, 'encode: pickle.dumps(m).hex(); decode: pickle.loads(bytes.fromhex(s))', 'inverse pair')
+    sp_names = [norm(x) for x in ast.walk(dec.node) if isinstance(x, ast.Attribute) and x.attr == 'special_metadata_names']
+    if not sp_names:
+        run.violation('C01.R7', dec, 'special metadata names', 'decoded metadata is not split into node flags (special_metadata_names) and user metadata')
+
+
 def check(repo, run, tier):
+    r7(repo, run)
     r1(repo, run)
     check_flag_tags(repo, run, 'C01.R2')
     r2b(repo, run)
@@ -332,5 +398,7 @@ def mutants(repo):
         Mutant('dict-eval-skips-underscore', lambda r: in_func(r, 'ConfigDict.ayns.on_evaluate_impl', "for key, value in self.ayns.named_children())", "for key, value in self.ayns.named_children() if not str(key).startswith('_'))"), ['C01.R5']),
         Mutant('list-eval-sorted', lambda r: in_func(r, 'ConfigList.ayns.on_evaluate_impl', "in self.ayns.named_children())", "in sorted(self.ayns.named_children()))"), ['C01.R5']),
         Mutant('F7-reverted', lambda r: in_func(r, 'ConfigDict.__setitem__', "        return self._set(name, value)", "        if isinstance(name, str) and name.startswith('_'):\n            return dict.__setitem__(self, name, value)\n        return self._set(name, value)"), ['C01.R6']),
+        Mutant('metadata-offset-not-applied-to-end', lambda r: in_func(r, 'yaml._encode_all_metadata', "        end += offset\n", ""), ['C01.R7']),
+        Mutant('metadata-offset-overwritten', lambda r: in_func(r, 'yaml._encode_all_metadata', "offset += repl_len - orig_len", "offset = repl_len - orig_len"), ['C01.R7']),
         Mutant('neutral-guard-reordered', lambda r: in_func(r, 'AwesomeyamlLoader.construct_object', "if not deep and not self.deep_construct and value is not aynode:", "if value is not aynode and not self.deep_construct and not deep:"), neutral=True),
     ]
